@@ -300,9 +300,12 @@ def materialise_seq(I, v, ty):
     ctx = I.ctx
     new = ctx.alloc(None, ty)
     idt = ctx.ref_id(new)
-    ctx.store_raw(idt, "$cls", z3.IntVal(ctx.E.classes.cid("abs:$" + ty.kind)))
+    ctx.store_raw(idt, "$cls", z3.IntVal(ctx.E.classes.cid("abs:$" + getattr(ty, "kind", "tuple"))))
     arr = z3.K(z3.IntSort(), Z.NONE)
     for k, x in enumerate(v.items):
+        ety = ctx.resolve_ty(ty.elems[k] if isinstance(ty, TTuple) and k < len(ty.elems) else getattr(ty, "elem", None))
+        if isinstance(x, (VList, VTuple)) and isinstance(ety, (TSeq, TTuple)) and (not isinstance(ety, TTuple) or len(ety.elems) == len(x.items)):
+            x = materialise_seq(I, x, ety)        # nested displays (a tuple of pairs) become nested heap sequences
         arr = z3.Store(arr, z3.IntVal(k), ctx.to_val(x).t)
     ctx.store_raw(idt, "$len", z3.IntVal(len(v.items)))
     ctx.store_raw(idt, "$item", arr)
@@ -1022,13 +1025,33 @@ def b_enumerate(I, args, kw):
 
 
 def b_zip(I, args, kw):
-    cols = []
-    for a in args:
-        c = I.try_concrete_iter(a)
-        if c is None:
-            raise Unsupported("zip() of non-concrete iterable")
-        cols.append(c)
-    return ConcreteIter([VTuple(list(t)) for t in zip(*cols)])
+    """zip of iterables of known length; the SAME one-shot iterator given several times is consumed in turn (zip(it, it) pairs
+    consecutive elements), exactly as Python does"""
+    srcs = [I.ctx.from_val(a) if isinstance(a, SV) else a for a in args]
+    pools = {}
+    for a in srcs:
+        if isinstance(a, ConcreteIter) and getattr(a, "oneshot", False):
+            if id(a) not in pools:
+                pools[id(a)] = list(a.items)
+                a.items = []
+        else:
+            c = I.try_concrete_iter(a)
+            if c is None:
+                raise Unsupported("zip() of non-concrete iterable")
+            pools[id(a)] = list(c)
+    rows = []
+    while True:
+        row = []
+        for a in srcs:
+            q = pools[id(a)]
+            if not q:
+                row = None
+                break
+            row.append(q.pop(0))
+        if row is None:
+            break
+        rows.append(VTuple(row))
+    return ConcreteIter(rows, oneshot=True)
 
 
 def b_sorted(I, args, kw):
@@ -1040,6 +1063,10 @@ def b_sorted(I, args, kw):
             return r
     if conc is not None and len(conc) <= 1 and not kw:
         return VList(conc)
+    if conc is not None and not kw and len(conc) <= 4:
+        r = _sorted_symbolic(I, conc)
+        if r is not None:
+            return r
     if conc is not None and not kw:
         # items with distinct constant sort keys (str keys of a dict display, or tuples led by them): sorted natively
         def skey(x):
@@ -1055,11 +1082,54 @@ def b_sorted(I, args, kw):
     raise Unsupported("sorted()")
 
 
+def _sorted_symbolic(I, items):
+    """sorted() of up to 4 items that are numbers or tuples led by a number, with SYMBOLIC values: every ordering consistent with the
+    path condition is explored (one path per permutation; `<=` between neighbours, stable for equal numbers).  Tuples whose leading
+    numbers are equal are compared on their next elements - for objects without an ordering that is the TypeError Python raises."""
+    import itertools
+
+    ctx = I.ctx
+
+    def lead(x):
+        x = ctx.from_val(x) if isinstance(x, SV) else x
+        if isinstance(x, VTuple) and x.items:
+            return x.items[0], True
+        return x, False
+
+    keys = []
+    for x in items:
+        k, is_tuple = lead(x)
+        if isinstance(k, (int, float)) and not isinstance(k, bool):
+            k = ctx.to_val(k)
+        if not (isinstance(k, SV) and isinstance(k.ty, TNum) and k.ty.static_finite):
+            return None
+        keys.append((Z.rval(k.t), is_tuple))
+    n = len(items)
+    perms = list(itertools.permutations(range(n)))
+    d = ctx.choose(len(perms) + 1, "sorted-order")
+    if d == len(perms):
+        # two tuples with EQUAL leading numbers: Python compares the next elements; for two arbitrary objects that is a TypeError
+        ties = z3.Or(*[keys[a][0] == keys[b][0] for a in range(n) for b in range(a + 1, n) if keys[a][1] and keys[b][1]] or [z3.BoolVal(False)])
+        ctx.assume(ties)
+        if not ctx.feasible():
+            raise PathEnd()
+        raise PyRaise(I.make_exception(ExternalRef("TypeError"), ["'<' not supported between instances"]))
+    perm = perms[d]
+    for a, b in zip(perm, perm[1:]):
+        if keys[a][1] and keys[b][1]:
+            ctx.assume(keys[a][0] < keys[b][0])          # tuples: strictly (a tie would have compared the objects)
+        else:
+            ctx.assume(z3.Or(keys[a][0] < keys[b][0], z3.And(keys[a][0] == keys[b][0], z3.BoolVal(a < b))))   # numbers: stable
+    if not ctx.feasible():
+        raise PathEnd()
+    return VList([items[k] for k in perm])
+
+
 def b_iter(I, args, kw):
     conc = I.try_concrete_iter(args[0])
     if conc is None:
         raise Unsupported("iter() of non-concrete iterable")
-    return ConcreteIter(conc)
+    return ConcreteIter(conc, oneshot=True)        # a true iterator: consumed by whoever iterates it
 
 
 def b_object_new(I, args, kw):
